@@ -1,14 +1,7 @@
 import SC.Proofs.Lift
+import SC.Model.Algo
 namespace Utf8
-
-/-- exact substring search (strings.Index / bytealg.IndexString): least `i` with `pat <+: s.drop i`, else -1 -/
-def bytesIndex : Bytes → Bytes → Int
-  | [], pat => if pat = [] then 0 else -1
-  | b :: s, pat =>
-    if pat.isPrefixOf (b :: s) then 0
-    else
-      let r := bytesIndex s pat
-      if r < 0 then -1 else r + 1
+open A
 
 theorem bytesIndex_ge (s pat : Bytes) : -1 ≤ bytesIndex s pat := by
   induction s with
